@@ -2035,6 +2035,12 @@ class Interp:
             for j_, e_ in enumerate(el_):
                 fp_ = fp_ + alg.mk_ind('==0', run_ - num(j_)) * e_
             x = Arr((lab_,), fp_, unit=x.unit, dt=x.dt)
+        if isinstance(x, Arr) and x.ndim == 1 and x.dims[0] is None and x.mask is None:
+            # an array of one element: an axis of one position
+            self._n_lists = getattr(self, '_n_lists', 0) + 1
+            lab_ = 'pos#%d' % self._n_lists
+            self.axis_len[lab_] = 1
+            x = x.with_(dims=(lab_,))
         if not (isinstance(x, Arr) and x.ndim == 1 and x.dims[0] is not None and x.mask is None):
             return None
         n = self.axis_len.get(x.dims[0])
@@ -2384,6 +2390,8 @@ class Interp:
                 lo = self.expr(e.slice.lower, env, mod) if e.slice.lower else None
                 hi = self.expr(e.slice.upper, env, mod) if e.slice.upper else None
                 stp = self.expr(e.slice.step, env, mod) if e.slice.step else None
+                lo, hi, stp = [(int(x.poly.const_value()) if isinstance(x, Arr) and x.ndim == 0 and x.mask is None and x.poly.is_const() and x.poly.const_value().denominator == 1
+                                else int(x) if isinstance(x, Fraction) and x.denominator == 1 else x) for x in (lo, hi, stp)]          # (a whole number held as a numpy scalar)
                 if all(x is None or isinstance(x, int) for x in (lo, hi, stp)):
                     return v[lo:hi:stp]
                 return Unk('list slice with symbolic bounds', e)
@@ -3561,6 +3569,8 @@ class Interp:
                 return sorted(args[0])
             if last == 'reversed' and args and isinstance(args[0], (list, tuple)):
                 return list(reversed(args[0]))
+            if last == 'divmod' and len(args) == 2 and all(isinstance(a_, int) and not isinstance(a_, bool) for a_ in args) and args[1] != 0:
+                return divmod(args[0], args[1])
             if last == 'fromkeys' and 1 <= len(args) <= 2 and isinstance(args[0], (list, tuple)) and all(isinstance(x_, (str, int)) for x_ in args[0]):
                 return {k_: (args[1] if len(args) > 1 else None) for k_ in args[0]}          # dict.fromkeys(names[, value])
             return Unk('builtin %s' % last, e)
